@@ -12,7 +12,7 @@ CLAIMED = {
          "Every result, listing, entry and stream byte of every generated history is compared by TLC with the total abstract model; the MC_Tree graph makes (state x operation) coverage systematic."),
  "C02": ("model_checking", "5 C02", "TLC trace validation: strict and permissive reopen dumps of the un-flushed bytes after every operation must equal the CfbTree state; forked continuation on the reopened file",
          "Crash points = every operation boundary of every history, both modes, both versions, including directory/FAT/MiniFAT (thorough: DIFAT) growth."),
- "C03": ("model_checking", "5 C03", "WF(img) rules R1-R8 written in TLA+ (CfbImage) evaluated by TLC on an independent raw decode of every produced image",
+ "C03": ("model_checking", "5 C03", "WF(img) rules R1-R8 written in TLA+ (CfbImage) evaluated by TLC on an independent raw decode of every produced image; the same rules are invariants of MC_Phys (CfbPhys, the TLA+ transcription of the allocator / directory / write paths, exhaustive at tiny geometry) and Trace_Phys binds CfbPhys to the code by predicting every table of every recorded image",
          "The judge shares no code with the library; it re-derives every chain from fat[]/minifat[] and checks ownership, leaks, chain lengths, tree order, blank entries."),
  "C07": ("model_checking", "5 C07", "TLC trace validation (CfbTree with a handle table) of histories holding handles open across structural mutation; CfbDir design model of slot stability",
          "Full logical + physical equality after every step means every other stream, all metadata and the tree are exactly as the model predicts."),
@@ -28,7 +28,7 @@ CLAIMED = {
          "Every single fault position of the workloads (pairs in thorough); design-level model covers all interleavings of one fault with the cache protocol."),
  "C13": ("fault_enumeration", "5 C13", "every k-th backend write/seek/flush fails; TLC (Trace_Handle, rw_faults mode) requires the call to report the error, no later panic, and Ok flush => fresh-handle read-back equals accepted writes; CfbHandle FlushDurable model checked with faults",
          "Every single fault position of the workloads (pairs in thorough) with retry of the failed call."),
- "C15": ("model_checking", "5 C15", "TLC trace validation of net-zero cycles (checked on the model) with a NoGrowth assertion on logged file lengths",
+ "C15": ("model_checking", "5 C15", "TLC trace validation of net-zero cycles (checked on the model) with a NoGrowth assertion on logged file lengths; NoGrowth is an invariant of MC_Phys in cycle mode (CfbPhys at tiny geometry), bound to the code by Trace_Phys",
          "Cycle templates x sizes x mini-stream fill levels at and around sector multiples."),
  "C17": ("model_checking", "5 C17", "TLC trace validation of metadata setters/getters against CfbTree; FILETIME quantisation table from Python big integers",
          "Values are opaque tokens for TLC; expected quantisation comes from an independent table."),
@@ -79,7 +79,7 @@ def main():
     m["not_applicable"] = [{"property_id": p["id"], "reason": na.get(p["id"], "machinery for this property is not finished in this round; not claimed")}
                            for p in props if p["id"] not in claimed]
     m["engines"] = [{"name": "tlc-trace-validation", "path": "spec/", "serves_properties": [c["property_id"] for c in checks],
-                     "kind_free_text": "explicit TLA+ specifications (CfbTree, CfbImage, CfbHandle, CfbLock) model checked with TLC and bound to the code by trace validation and spec-generated replays"}]
+                     "kind_free_text": "explicit TLA+ specifications (CfbTree, CfbImage, CfbPhys, CfbDir, CfbHandle, CfbLock; generators Gen_Layout / Gen_Deviate / Gen_Corrupt; validators Trace_File / Trace_Phys / Trace_Handle / Trace_Lock / Trace_Config / Trace_Robust) model checked with TLC and bound to the code by trace validation and spec-generated replays"}]
     m["hooks"]["source_commits"] = extra.get("hook_commits", HOOK_COMMITS)
     m["notes"] = "bin/check <id> rebuilds the harness against /repo's working tree (cfg cfb_verif), generates scripts (TLC-generated + seeded), runs them on the real library and lets TLC judge every recorded event."
     json.dump(m, open(os.path.join(ROOT, "MANIFEST.json"), "w"), indent=1)
